@@ -615,7 +615,7 @@ def tree_cases(rng, tier):
 
 
 # ------------------------------------------------------------ factories
-def rand_factory(rng, tier, depth, sp=None, top=True):
+def rand_factory(rng, tier, depth, sp=None, top=True, force_kind=None, force_g=None):
     """Returns (python_builder(space)->factory, coq_term, desc, Sp, vec_ok)."""
     import odl
     P = odl.solvers.nonsmooth.proximal_operators
@@ -680,9 +680,9 @@ def rand_factory(rng, tier, depth, sp=None, top=True):
     kinds.append('huber')
     if not forced:
         kinds += ['l1l2', 'ccl1l2']
-    kind = rng.choice(kinds)
+    kind = force_kind or rng.choice(kinds)
     lam = rng.choice([1.0, 0.5, 2.0, 3.0, 0.25])
-    g = None if rng.random() < 0.4 else vec(rng, n, lo=-6, hi=6)
+    g = None if (rng.random() < 0.4 if force_g is None else not force_g) else vec(rng, n, lo=-6, hi=6)
     ge = (lambda: None) if g is None else (lambda: sp.el(g))
     w = C.qs(sp.weights)
     if kind == 'l1':
@@ -772,18 +772,33 @@ ATOMIC = ('l1', 'ccl1', 'l2', 'ccl2', 'l2sq', 'ccl2sq', 'linf', 'cclinf', 'box',
 def factory_cases(rng, tier):
     cs = C.CaseSet('factories', ['C07.Model', 'C07.Corr'], 'check_fac', 'fcase')
     n_f = 160 if tier == 'quick' else 1600
-    for i in range(n_f):
-        mk, term_f, desc_f, sp, vec_ok = rand_factory(rng, tier, rng.choice([0, 0, 1, 1, 2]))
+    # branch grid first: every atomic factory x (g None | given) x (scalar | element step) x (plain | aliased call)
+    grid = []
+    for kind in ('l1', 'ccl1', 'l2', 'ccl2', 'l2sq', 'ccl2sq', 'linf', 'cclinf', 'box', 'const', 'cckl', 'huber',
+                 'l1l2', 'ccl1l2'):
+        for fg in (False, True):
+            for fv in (False, True):
+                for fa in (False, True):
+                    grid.append((kind, fg, fv, fa))
+    for i in range(len(grid) + n_f):
+        if i < len(grid):
+            kind, fg, fv, fa = grid[i]
+            mk, term_f, desc_f, sp, vec_ok = rand_factory(rng, tier, 0, force_kind=kind, force_g=fg)
+            if fv and not vec_ok:
+                continue
+        else:
+            fv = fa = None
+            mk, term_f, desc_f, sp, vec_ok = rand_factory(rng, tier, rng.choice([0, 0, 1, 1, 2]))
         n = sp.n
-        for rep in range(2):
-            if vec_ok and rng.random() < 0.4:
+        for rep in range(2 if fv is None else 1):
+            if (vec_ok and rng.random() < 0.4) if fv is None else fv:
                 step = ('vec', [pos(rng) for _ in range(n)])
             else:
                 step = ('scal', pos(rng))
             r = rng.random()
             x = kink_points(rng, n, step) if r < 0.3 else ([0.0] * n if r < 0.36 else vec(rng, n))
             xe = sp.el(x)
-            alias = rng.random() < 0.25 and 'proj_' not in desc_f and '(' not in desc_f.split('@')[0].split('(')[0] and desc_f.split('(')[0] in ATOMIC
+            alias = (rng.random() < 0.25 if fa is None else fa) and 'proj_' not in desc_f and desc_f.split('(')[0].split('@')[0] in ATOMIC
 
             def call():
                 op = mk()(impl_step(step, sp.space))     # construction errors (a < 0, lower > upper) count as the outcome
@@ -944,6 +959,8 @@ def finding_key(kind, sp):
         power = (not _is_pspace(sp.space)) or sp.space.is_power_space
     except Exception:
         pass
+    if kind == 'huber' and not power:
+        return 'huber-nonpower-product-space'
     if kind in ('simplex', 'linf', 'ball1') and not power:
         return 'proj-simplex-nonpower-product-space'
     if kind == 'linf' and _nonunit_weights(sp):
